@@ -1,6 +1,12 @@
 /-
   C18 — one schema object can be built and used from many threads with unchanged results.
-  ONLY property theorems and non-vacuity examples (model: Model/Threads.lean, lemmas: Lemmas/Threads.lean).
+  ONLY property theorems and non-vacuity examples.
+    Model/Threads.lean       + Lemmas/Threads.lean        double-checked build lock, single-pair widening (history of
+                                                          C18-F1/F2: the pre-fix schedules stay as counter-examples)
+    Model/ThreadsWiden.lean  + Lemmas/ThreadsWiden.lean   CURRENT update_elements / xsi_types / collect_key_fields code at
+                                                          statement granularity, any finite set of pairs, any programs
+    Model/ThreadsCache.lean  + Lemmas/ThreadsCache.lean   one machine for every memo cache (+ clear / evict / bypass),
+                                                          the benign-race family, the scratch validation context
 
   Every theorem quantifies over ALL schedules (`List Nat`, any length) and, because threads are indexed by
   `Nat` and a schedule may name any of them, over any number of threads.
